@@ -80,8 +80,8 @@ class Engine:
         self.requires = 0
         self.poison = None           # reason string if an Unsupported was raised (even if swallowed)
         self.nfresh = 0
-        self.known = {}              # finding id -> z3 cond / bool  (classes declared by the harness)
-        self.mode = ("main", ())     # ("main", excluded_ids) | ("witness", id)
+        self.pending = None          # (kind, msg) of a raised engine signal; survives being swallowed by
+                                     # "except BaseException" clauses in the code under test
 
     # ---- solver plumbing
     def check(self, *extra):
@@ -91,6 +91,7 @@ class Engine:
         self.solver_time += time.perf_counter() - t
         if r == z3.unknown:
             self.poison = "z3 unknown: %s" % self.solver.reason_unknown()
+            self.pending = ("inconclusive", self.poison)
             raise Inconclusive(self.poison)
         return r == z3.sat
 
@@ -99,7 +100,18 @@ class Engine:
 
     def unsupported(self, what):
         self.poison = "unsupported: " + what
+        self.pending = ("inconclusive", self.poison)
         raise Unsupported(what)
+
+    def abort(self):
+        if self.pending is None:
+            self.pending = ("abort", None)
+        raise PathAbort()
+
+    def violation(self, msg):
+        if self.pending is None:
+            self.pending = ("violation", msg)
+        raise Violation(msg)
 
     # ---- decisions
     def _replay(self):
@@ -130,7 +142,7 @@ class Engine:
             elif self.check(c):
                 feas.append(i)
         if not feas:
-            raise PathAbort()
+            self.abort()
         self.trace.append([0, feas])
         self.solver.add(conds[feas[0]])
         return feas[0]
@@ -147,7 +159,7 @@ class Engine:
         """Structural fork over a list of concrete python values (no solver)."""
         values = list(values)
         if not values:
-            raise PathAbort()
+            self.abort()
         self.decisions += 1
         idx = len(self.trace)
         if idx < len(self.prefix):
@@ -182,7 +194,7 @@ class Engine:
         finally:
             self.solver.pop()
         if not values:
-            raise PathAbort()
+            self.abort()
         values.sort()
         self.trace.append([0, values])
         self.solver.add(zexpr == values[0])
@@ -208,10 +220,10 @@ class Engine:
         elif cond:
             return
         else:
-            raise PathAbort()
+            self.abort()
         self.solver.add(z)
         if not self.check():
-            raise PathAbort()
+            self.abort()
 
     def require(self, cond, msg):
         """Assertion: the negation must be unsatisfiable on this path."""
@@ -223,11 +235,11 @@ class Engine:
             z = cond
         else:
             if not cond:
-                raise Violation(msg)
+                self.violation(msg)
             return
         if self.check(z3.Not(z)):
             self.solver.add(z3.Not(z))
-            raise Violation(msg)
+            self.violation(msg)
         self.solver.add(z)
 
     def observe(self, label, value):
